@@ -44,6 +44,10 @@ type Broker struct {
 	Published [][]byte
 	Acked     [][]byte
 	Conns     int
+	// OnPublish, when set, is called (outside the lock) with the number of
+	// complete messages received so far, before the scripted behaviour runs:
+	// the place where the environment can change in reaction to a publish.
+	OnPublish func(n int)
 }
 
 func Start() *Broker {
@@ -213,6 +217,13 @@ func (b *Broker) serve(c net.Conn) {
 // published is called when a message is complete; true = the connection is over.
 func (b *Broker) published(c net.Conn, ch uint16, beh Behaviour, body []byte, confirmMode bool, tag *uint64) bool {
 	*tag++
+	b.mu.Lock()
+	n := len(b.Published) + 1
+	hook := b.OnPublish
+	b.mu.Unlock()
+	if hook != nil {
+		hook(n)
+	}
 	b.mu.Lock()
 	b.Published = append(b.Published, append([]byte{}, body...))
 	if beh.Confirmed() {
